@@ -54,7 +54,7 @@ func c13Cases(tier string) []c13Enum {
 	}
 	var cs []c13Enum
 	// (a) randomness failure: scenario version x k x mode; k up to a generous bound (runs beyond the scenario's reads are cheap no-ops)
-	for _, ver := range []int{2, 3} {
+	for _, ver := range []int{2, 3, 12, 13} { // 12/13: version 2/3 with a lost DH-Commit collision at the start
 		for k := 0; k < 70; k++ {
 			for mode := 1; mode <= 4; mode++ {
 				cs = append(cs, c13Enum{1, ver, k, mode})
@@ -112,14 +112,15 @@ func c13Config(rc *RunCtx) {
 	}
 	rc.Cfg["version"] = []int{2, 3, 3, 23}[r.Intn(4)]
 	if rc.Cfg["mode"] == 1 {
-		rc.Cfg["version"] = rc.Cfg["a"]
+		rc.Cfg["version"] = rc.Cfg["a"] % 10
+		rc.Cfg["collide"] = rc.Cfg["a"] / 10
 	}
 	rc.Cfg["state"] = r.Intn(len(c13States))
 	pol := polFor(rc.Cfg["version"])
 	extra := r.Intn(16) << 2
 	rc.Parties = []PartyCfg{
 		{KeyIdx: 0, Pol: pol | extra, Peer: 1, ErrHandler: r.Bool(), Tag: 0x1000 + uint32(r.Intn(1<<16))},
-		{KeyIdx: 1, Pol: pol &^ PolV2 | PolV3, Peer: 0, Ref: true, Tag: 0x20000 + uint32(r.Intn(1<<16))},
+		{KeyIdx: 1, Pol: pol&^PolV2 | PolV3, Peer: 0, Ref: true, Tag: 0x20000 + uint32(r.Intn(1<<16))},
 	}
 	if rc.Cfg["version"] == 2 {
 		rc.Parties[1].Pol = PolV2
@@ -297,20 +298,35 @@ func c13Hostile(rc *RunCtx) *Violation {
 				return []byte("?OTR:AAMD."), "garbage"
 			}
 			plains := [][]byte{
-				[]byte("t\x00\x00\x02\xff\xffAB"),                                   // TLV length beyond the end
-				append([]byte("\x00\x00\x02\x00\x04"), 0xff, 0xff, 0xff, 0xff),       // SMP1 with 2^32-1 MPIs
+				[]byte("t\x00\x00\x02\xff\xffAB"),                                          // TLV length beyond the end
+				append([]byte("\x00\x00\x02\x00\x04"), 0xff, 0xff, 0xff, 0xff),             // SMP1 with 2^32-1 MPIs
 				append([]byte("\x00\x00\x03\x00\x08"), 0, 0, 0, 1, 0x7f, 0xff, 0xff, 0xff), // SMP2: MPI with huge length
-				[]byte("\x00\x00\x08\x00\x02ab"),                                    // extra key TLV shorter than its usage word
-				[]byte("\x00\x00\x08\x00\x00"),                                      // empty extra key TLV
-				[]byte("\x00\x00\x07\x00\x03abc"),                                   // SMP1Q without terminator
-				[]byte("\x00\x00\x01\x00\x00\x00\x01\x00\x00"),                      // disconnect twice
-				[]byte("\x00\xff\xff\x00\x00"),                                      // unknown TLV type
-				[]byte("\x00\x00"),                                                  // truncated TLV header
-				{},                                                                  // empty plaintext
-				bytes.Repeat([]byte("\x00\x00\x00\x00\x00"), 2000),                  // many TLVs
-				append([]byte("x\x00\x00\x05\x00\x04"), 0, 0, 0, 3),                 // SMP4 count 3 without data
-				append([]byte("\x00\x00\x06\x00\x04"), 0, 0, 0, 0),                  // abort
-				bytes.Repeat([]byte{'A'}, 70000),                                    // long text
+				[]byte("\x00\x00\x08\x00\x02ab"),                                           // extra key TLV shorter than its usage word
+				[]byte("\x00\x00\x08\x00\x00"),                                             // empty extra key TLV
+				[]byte("\x00\x00\x07\x00\x03abc"),                                          // SMP1Q without terminator
+				[]byte("\x00\x00\x01\x00\x00\x00\x01\x00\x00"),                             // disconnect twice
+				[]byte("\x00\xff\xff\x00\x00"),                                             // unknown TLV type
+				[]byte("\x00\x00"),                                                         // truncated TLV header
+				{},                                                                         // empty plaintext
+				bytes.Repeat([]byte("\x00\x00\x00\x00\x00"), 2000),                         // many TLVs
+				append([]byte("x\x00\x00\x05\x00\x04"), 0, 0, 0, 3),                        // SMP4 count 3 without data
+				append([]byte("\x00\x00\x06\x00\x04"), 0, 0, 0, 0),                         // abort
+				bytes.Repeat([]byte{'A'}, 70000),                                           // long text
+			}
+			// SMP TLVs of every type with every MPI count around the expected ones
+			for typ := 2; typ <= 7; typ++ {
+				for cnt := 0; cnt <= 12; cnt++ {
+					v := refotr.PutInt(nil, uint32(cnt))
+					for i := 0; i < cnt; i++ {
+						v = refotr.PutMPI(v, big.NewInt(int64(1000+i)))
+					}
+					if typ == 7 {
+						v = append([]byte("q?\x00"), v...)
+					}
+					pl := []byte{0, 0, byte(typ)}
+					pl = append(pl, byte(len(v)>>8), byte(len(v)))
+					plains = append(plains, append(pl, v...))
+				}
 			}
 			d, err := m.Ref.BuildData(refotr.DataSpec{RawPlain: plains[s.C%len(plains)]})
 			if err != nil {
@@ -475,6 +491,7 @@ func c13Probe(rc *RunCtx, w *World, after string) *Violation {
 
 func c13RandFault(rc *RunCtx) *Violation {
 	k, mode := rc.Cfg["b"], rc.Cfg["c"]
+	rc2collide := rc.Cfg["collide"] == 1
 	w := rc.NewWorld(rc.Parties)
 	v, m := w.P[0], w.P[1]
 	v.Rand.FailAt, v.Rand.Mode = k, mode
@@ -491,7 +508,19 @@ func c13RandFault(rc *RunCtx) *Violation {
 		w.Drain(300)
 		return viol == nil
 	}
-	ok := step(func() { w.Put(1, 0, m.Query(), true, -1, -1, "query") }) && // victim initiates (Bob role)
+	collide := func() {
+		// the victim has sent its DH-Commit; a commit whose hash is the highest possible arrives:
+		// the victim has to give in and answer with a DH-Key for a freshly drawn exponent
+		if !rc2collide {
+			return
+		}
+		hdr := refotr.Header{Version: m.Ref.Version, Type: refotr.TypeDHCommit, SenderTag: m.Ref.OurTag, ReceiverTag: 0}
+		c := &refotr.DHCommit{Header: hdr, EncGx: bytes.Repeat([]byte{7}, 196), HashGx: bytes.Repeat([]byte{0xff}, 32)}
+		w.Put(1, 0, refotr.Armor(c.Raw()), false, -1, -1, "winning-commit")
+		w.Fault("commit-collision")
+	}
+	ok := step(func() { w.Put(1, 0, m.Query(), true, -1, -1, "query"); w.Deliver(w.Take(1, 0, 0)); collide() }) && // victim initiates (Bob role)
+		step(func() { w.Put(1, 0, m.Query(), true, -1, -1, "query") }) &&
 		step(func() { r := v.Send(w.GenText(v, 2, 0)); w.Enqueue(v, r) }) &&
 		step(func() { r := m.Send(w.GenText(m, 2, 0)); w.Enqueue(m, r) }) &&
 		step(func() { r := v.Send(w.GenText(v, 2, 0)); w.Enqueue(v, r) }) &&
